@@ -349,6 +349,68 @@ Proof.
   destruct (is_completed (st e3v j)); [|exact X3].
   eapply xext_trans; [exact X3|]. eapply xext_trans; [apply xext_with_pstate | now apply xext_add_ev].
 Qed.
+(* an errored task none of whose catches takes the error: emitting it writes no state either *)
+Definition uncaught (e : eng) (j : nat) : Prop :=
+  match t_err (tk e j) with
+  | None => True
+  | Some code => t_catch_done (tk e j) = true \/
+                 forallb (fun c : option nat => negb (match c with Some x => Nat.eqb x code | None => true end)) (t_catches (tk e j)) = true
+  end.
+Lemma emit_xext_uncaught f e j : j < ntasks e -> st e j = SError -> uncaught e j -> xext e (emit f e j).
+Proof.
+  intros Hj Hs Hu. destruct f as [|f]; [apply xext_oof|]. cbn [emit].
+  set (k := kind e j).
+  set (e1a := match k with KWorkflow => if is_created (st e j) then add_ev e (EProc (pstate e) (outputs e j)) else e | _ => e end).
+  assert (X1a : xext e e1a).
+  { unfold e1a. destruct k; try apply xext_refl. destruct (is_created _); [now apply xext_add_ev | apply xext_refl]. }
+  set (e1 := upsert e1a j).
+  assert (X1 : xext e e1) by (eapply xext_trans; [exact X1a | apply xext_upsert]).
+  assert (R1 : j < ntasks e1) by (pose proof (ext_len _ _ (proj1 X1)); lia).
+  assert (S1 : st e1 j = st e j) by apply (ext_st _ _ j (proj1 X1)).
+  match goal with |- xext e (match k with KWorkflow => if is_completed (st ?e3 j) then _ else _ | _ => _ end) => set (e3v := e3) end.
+  assert (X3 : xext e e3v).
+  { unfold e3v.
+    match goal with |- xext e (if msg_allowed ?e2 j then _ else _) => set (e2v := e2) end.
+    assert (X2 : xext e1 e2v).
+    { unfold e2v. destruct (t_evproc (tk e1 j)); [apply xext_refl|].
+      assert (Hh : forall ea t ev, xext e1 ea -> xext e1 (run_stmt_hooks ea t ev j)).
+      { intros ea t ev Xa. eapply xext_trans; [exact Xa|]. apply xext_run_stmt_hooks. pose proof (ext_len _ _ (proj1 Xa)); lia. }
+      destruct (is_created (st e1 j)).
+      - destruct (nkind_beq k KAct); [|apply Hh, xext_refl].
+        apply Hh. destruct (climb_step _ _); [apply Hh|]; apply Hh, xext_refl.
+      - destruct (is_completed (st e1 j) && negb (is (st e1 j) SError)).
+        + destruct (nkind_beq k KAct).
+          * apply Hh. destruct (climb_step _ _); [apply Hh|]; apply Hh, xext_refl.
+          * destruct (nkind_beq k KStep); [apply Hh, Hh, Hh, xext_refl | apply Hh, xext_refl].
+        + destruct (is (st e1 j) SError) eqn:E; [|apply xext_refl].
+          assert (Ht : tk e1 j = tk e j) by (unfold e1, e1a; destruct k; try reflexivity; destruct (is_created _); reflexivity).
+          rewrite Ht. unfold uncaught in Hu.
+          assert (Hfold : forall cs ee, tk ee j = tk e j ->
+                    (match t_err (tk e j) with Some code => t_catch_done (tk e j) = true \/ forallb (fun c : option nat => negb (match c with Some x => Nat.eqb x code | None => true end)) cs = true | None => True end) ->
+                    fold_left (fun ee (c : option nat) =>
+                      match t_err (tk ee j) with
+                      | None => ee
+                      | Some code => if t_catch_done (tk ee j) then ee
+                                     else if match c with None => true | Some x => Nat.eqb x code end
+                                          then let ee1 := set_state 19 (set_catch_done ee j) j SRunning in
+                                               match children_in (tnode ee1 j) (OCatch c) with [] => review f [] j ee1 j | ch => sched_nodes ee1 ch j end
+                                          else ee
+                      end) cs ee = ee).
+          { induction cs as [|c cs IH]; intros ee Hee Hc; cbn [fold_left]; [reflexivity|].
+            rewrite Hee. destruct (t_err (tk e j)) as [code|] eqn:Ee; [|now apply IH].
+            destruct Hc as [Hc | Hc].
+            - rewrite Hc. apply IH; auto.
+            - cbn [forallb] in Hc. apply andb_true_iff in Hc as [Hc1 Hc2]. apply negb_true_iff in Hc1.
+              destruct (t_catch_done (tk e j)); [apply IH; auto|].
+              assert (Em : match c with None => true | Some x => Nat.eqb x code end = false) by (destruct c; exact Hc1).
+              rewrite Em. apply IH; auto. }
+          rewrite Hfold; [apply xext_refl | exact Ht | exact Hu]. }
+    assert (X2' : xext e e2v) by (eapply xext_trans; eauto).
+    destruct (msg_allowed e2v j) eqn:Ema; [eapply xext_trans; [exact X2' | apply xext_add_ev; [reflexivity | now apply msg_allowed_ok]] | exact X2']. }
+  destruct k; try exact X3.
+  destruct (is_completed (st e3v j)); [|exact X3].
+  eapply xext_trans; [exact X3|]. eapply xext_trans; [apply xext_with_pstate | now apply xext_add_ev].
+Qed.
 
 (* ---------------------------------------------------------------------------------------------
    the engine's mutually recursive core keeps J; the task list only grows
